@@ -60,7 +60,15 @@ fn take_panic() -> (String, String) {
     LAST_PANIC.lock().ok().and_then(|mut g| g.take()).unwrap_or_default()
 }
 fn clip(s: &str, n: usize) -> String {
-    let one: String = s.chars().map(|c| if c == '\n' || c == '"' || c == '\\' { ' ' } else { c }).collect();
+    let one: String = s
+        .chars()
+        .map(|c| match c {
+            '\n' => ' ',
+            '"' => '\'',
+            '\\' => '/',
+            c => c,
+        })
+        .collect();
     match one.char_indices().nth(n) {
         Some((i, _)) => one[..i].to_string(),
         None => one,
@@ -108,6 +116,7 @@ const K_C04_1: KnownMark = KnownMark { id: "F-C04-1", msg: "byte_at(self.path_st
 const K_C04_3: KnownMark = KnownMark { id: "F-C04-3", msg: "", loc: "" };
 const K_C04_7: KnownMark = KnownMark { id: "F-C04-7", msg: "segment_start - 1", loc: "parser.rs" };
 const K_C14_1: KnownMark = KnownMark { id: "F-C14-1", msg: "index out of bounds", loc: "ascii_set.rs" };
+const K_C02_28: KnownMark = KnownMark { id: "F-C02-2+F-C02-8", msg: "", loc: "" };
 const K_C11_2: KnownMark = KnownMark { id: "F-C11-2", msg: "!had_errors", loc: "uts46.rs" };
 
 struct Sink {
@@ -120,10 +129,11 @@ struct Sink {
     /// check_invariants Err on a URL produced by the parser (an outcome)
     strict_inv: Option<String>,
     strict: bool,
+    c11: Option<(AsciiDenyList, Hyphens)>,
 }
 impl Sink {
     fn new() -> Sink {
-        Sink { strings: 0, invalid: None, class: "ok", known: None, inv: None, strict_inv: None, strict: true }
+        Sink { strings: 0, invalid: None, class: "ok", known: None, inv: None, strict_inv: None, strict: true, c11: None }
     }
     fn raw(&mut self, which: &str, b: &[u8]) {
         self.strings += 1;
@@ -221,6 +231,15 @@ fn corrupt_empty_host(u: &Url) -> bool {
     let s = u.as_str().as_bytes();
     let se = c.scheme_end as usize;
     se <= s.len() && s[se..].starts_with(b"://") && c.host_start == c.host_end && (c.port.is_some() || c.host_start > c.scheme_end + 3)
+}
+/// F-C02-2 / F-C02-8 (open C02 findings): the record has no authority but its path starts with "//", so the
+/// serialization reads `scheme://...`; Position::BeforeUsername is then computed from the text (scheme_end + 3)
+/// and lies after AfterUsername (= username_end = scheme_end + 1): slicing in component order panics
+fn authority_lookalike(u: &Url) -> bool {
+    let c = url::quirks::internal_components(u);
+    let s = u.as_str().as_bytes();
+    let se = c.scheme_end as usize;
+    se <= s.len() && s[se..].starts_with(b"://") && c.host_start == c.scheme_end + 1
 }
 /// F-C04-1: set_host(None) on a non-special URL with a host, an EMPTY path and a query or fragment
 fn c04_1_class(u: &Url) -> bool {
@@ -325,9 +344,12 @@ fn known11(d: &[u8], deny: AsciiDenyList, hy: Hyphens) -> bool {
     }
     t.split('.').any(|l| l.is_ascii() && !l.is_empty() && !l.to_ascii_lowercase().starts_with("xn--") && ascii_label_bidi_error(&l.to_ascii_lowercase()))
 }
-fn mark11(d: &[u8], deny: AsciiDenyList, hy: Hyphens, k: &mut Sink) {
-    if DBG && known11(d, deny, hy) {
+/// the class predicate is expensive: the mark is set unconditionally and `exec` evaluates known11 only
+/// after a panic with the message / location of the assertion
+fn mark11(deny: AsciiDenyList, hy: Hyphens, k: &mut Sink) {
+    if DBG {
         k.known = Some(K_C11_2);
+        k.c11 = Some((deny, hy));
     }
 }
 
@@ -380,7 +402,12 @@ fn url_all(u: &Url, k: &mut Sink, strict: bool) {
     for r in rows().iter().filter(|r| r.kind == Kind::UrlGet) {
         (r.f)(&c, k);
     }
+    let saved_known = k.known;
+    if authority_lookalike(u) {
+        k.known = Some(K_C02_28);
+    }
     slicing(u, k);
+    k.known = saved_known;
     k.strict = saved;
 }
 fn res_url(r: Result<Url, url::ParseError>, k: &mut Sink) {
@@ -949,16 +976,20 @@ fn build_rows() -> Vec<Row> {
     row!("url", "Url::from_file_path", Bytes, Cap::Full, |c, k| {
         use std::os::unix::ffi::OsStrExt;
         let p = std::path::Path::new(std::ffi::OsStr::from_bytes(c.bytes));
+        // F-C02-5 (open): a `..` component is written as a segment, so the value is not a parse fixpoint
+        let strict = !p.components().any(|c| matches!(c, std::path::Component::ParentDir));
         match Url::from_file_path(p) {
-            Ok(u) => url_all(&u, k, true),
+            Ok(u) => url_all(&u, k, strict),
             Err(()) => k.class = "err",
         }
     });
     row!("url", "Url::from_directory_path", Bytes, Cap::Full, |c, k| {
         use std::os::unix::ffi::OsStrExt;
         let p = std::path::Path::new(std::ffi::OsStr::from_bytes(c.bytes));
+        // F-C02-5 (open): a `..` component is written as a segment, so the value is not a parse fixpoint
+        let strict = !p.components().any(|c| matches!(c, std::path::Component::ParentDir));
         match Url::from_directory_path(p) {
-            Ok(u) => url_all(&u, k, true),
+            Ok(u) => url_all(&u, k, strict),
             Err(()) => k.class = "err",
         }
     });
@@ -1214,7 +1245,7 @@ fn build_rows_other() -> Vec<Row> {
     row!("idna", "Uts46::to_user_interface", Bytes, Cap::Idna, |c, k| {
         for p in 0..3u64 {
             let (deny, hy) = (deny_of(c.small + p), hy_of(c.small / 3));
-            mark11(c.bytes, deny, hy, k);
+            mark11(deny, hy, k);
             let (s, r) = Uts46::new().to_user_interface(c.bytes, deny, hy, |label, tld, bidi| match p {
                 0 => false,
                 1 => label.len() % 2 == 0,
@@ -1234,7 +1265,7 @@ fn build_rows_other() -> Vec<Row> {
             let mut s1 = CountSink::new(fail);
             let mut s2 = CountSink::new(if p == 3 { Some(0) } else { None });
             let pol = if p % 2 == 0 { ErrorPolicy::FailFast } else { ErrorPolicy::MarkErrors };
-            mark11(c.bytes, deny, hy, k);
+            mark11(deny, hy, k);
             let r = Uts46::new().process(c.bytes, deny, hy, pol, |label, _tld, _bidi| p == 1 || label.len() % 2 == 0, &mut s1, if p != 1 { Some(&mut s2) } else { None });
             k.known = None;
             k.class = match r {
@@ -1570,6 +1601,8 @@ static FAMS: &[Fam] = &[
     fam("xn-a-9", b"xn--a-", b"9", b""),
     fam("xn-a-z", b"xn--a-", b"z", b""),
     fam("a-z", b"a-", b"z", b""),
+    fam("bidi-1a", b"1a.", b"xn--4db.", b""),
+    fam("bidi-alef", b"1a.", "\u{5D0}.".as_bytes(), b"b"),
     fam("b64-A", b"", b"A", b""),
     fam("b64-Aeq", b"", b"A=", b""),
     Fam { id: "b64-AApad", head: b"AA", unit: b"=", unit2: b"", tail: b"", extra: &[254, 255, 256, 257, 258, 511, 512, 513] },
@@ -1624,7 +1657,7 @@ const URL_PREFIXES: [&str; 15] = [
 /// prefixes used for inputs above 1000 bytes (the ones that put the family into a different parser state)
 const URL_PREFIXES_BIG: [&str; 8] = ["", "http://h/", "http://", "a:", "a:/", "file:///", "http://h/?", "http://u:"];
 const DATA_PREFIXES: [&str; 6] = ["", "data:", "data:,", "data:;base64,", "data:text/plain;charset=x,", "data:a/b;base64;x=,"];
-const BASES: [&str; 7] = ["http://h/a/b?q#f", "a://h/a/b", "a:/a/b", "a:opaque", "file:///a/b", "file://h/C:/a", "blob:http://h/x"];
+const BASES: [&str; 8] = ["http://h/a/b?q#f", "a://h/a/b", "a:/a/b", "a:opaque", "file:///a/b", "file://h/C:/a", "blob:http://h/x", "file:///a/c:"];
 /// extra start URLs of the setter rows: the shapes the known classes are about stay reachable
 const STARTS_EXTRA: [&str; 5] = ["a://h:80/p", "a://u:p@h", "a://h?q", "file:///a/c:", "http://u:p@h:81/a/b?q#f"];
 
@@ -1669,7 +1702,7 @@ fn exec(row: &Row, ctx: &Ctx) -> CaseOut {
         Err(_) => {
             let (msg, loc) = take_panic();
             match k.known {
-                Some(m) if msg.contains(m.msg) && loc.contains(m.loc) => {
+                Some(m) if msg.contains(m.msg) && loc.contains(m.loc) && (m.id != K_C11_2.id || k.c11.map_or(false, |(d, h)| known11(ctx.bytes, d, h))) => {
                     out.model = format!("PANIC(known:{})", m.id);
                     out.imp = out.model.clone();
                     out.known = Some(m.id);
@@ -1818,7 +1851,8 @@ fn run_history(start: &str, ops: &str) -> (String, String, &'static str) {
                     line_panic = Some(format!("{}: an accessor panicked", name));
                 }
             }
-            let pl = positions_line(&u);
+            // positions_line also takes the reversed ranges (about 120 caught panics per call): last operation only
+            let pl = if std::ptr::eq(op, &ops[ops.len() - 1]) && ops.len() > 1 { positions_line(&u) } else { String::new() };
             for (i, t) in pl.split(' ').enumerate() {
                 // entry i: position a = i / 18; 0 = a.., 1 = ..a, 2 + b = a..b; reversed ranges panic as for str
                 let (a, j) = (i / 18, i % 18);
@@ -2136,7 +2170,9 @@ fn stream_families(col: &mut Col) {
     let targets: Vec<usize> = if thorough { vec![0, 1, 2, 3, 7, 64, 1000, 65536, 1 << 20, 4 << 20] } else { vec![0, 1, 2, 3, 7, 64, 1000, 65536] };
     let bases = base_urls();
     let starts = start_urls(thorough);
+    let trace = std::env::var("C04_TRACE").is_ok();
     for f in FAMS {
+        let t0 = Instant::now();
         for cap in [Cap::Full, Cap::Idna, Cap::Puny, Cap::Data] {
             for n in fam_counts(f, &targets, cap_bytes(cap, thorough)) {
                 let inp = fam_bytes(f, n);
@@ -2147,6 +2183,9 @@ fn stream_families(col: &mut Col) {
             let inp = fam_bytes(f, n);
             let level = if inp.len() <= 1100 { 0 } else if inp.len() <= 100_000 { 1 } else { 2 };
             feed_url_rows(col, "families", &format!("fam={} n={}", f.id, n), &inp, level, &bases, &starts);
+            if trace {
+                eprintln!("c04:   family {} n={} cumulative {:.2} s", f.id, n, t0.elapsed().as_secs_f64());
+            }
         }
     }
     col.rep.notes.push(format!(
@@ -2327,12 +2366,24 @@ fn stream_generators(col: &mut Col, seed: u64) {
 }
 
 fn run_streams(col: &mut Col, seed: u64) {
+    let trace = std::env::var("C04_TRACE").is_ok();
+    let t0 = Instant::now();
+    let lap = |what: &str| {
+        if trace {
+            eprintln!("c04: {} done at {:.1} s", what, t0.elapsed().as_secs_f64());
+        }
+    };
     stream_documented(col);
     stream_small(col);
+    lap("documented+small");
     stream_exhaustive(col);
+    lap("exhaustive");
     stream_generators(col, seed);
+    lap("generators");
     stream_families(col);
+    lap("families");
     stream_blob(col);
+    lap("deep-blob");
 }
 
 // ================================================================ the inventory
@@ -2474,7 +2525,8 @@ fn run_replay(args: &Args) -> Report {
         rep.notes.push("implementation: the inventory theorem is broken by this function; see the generic probe in the search report".into());
         return rep;
     }
-    let (m, i) = run_request_pair(&req);
+    let (m, _) = run_request_pair(&req);
+    let i = run_request(&req);
     rep.notes.push(format!("implementation: {}", i));
     rep.notes.push(format!("prediction: {}", m));
     if is_failure(&m, &i) {
@@ -2643,8 +2695,627 @@ fn mime_distinct(n: usize) -> String {
 }
 
 // ================================================================ stubs (filled in below)
-fn generic_probe(_e: &ApiEntry, _rep: &mut Report) {}
-fn run_timing_into(_rep: &mut Report, _fail: bool) {}
+// ================================================================ generic exercise of a public fn without a table row
+/// parameter types of a signature text of tables.json (tokens separated by spaces); Err = why it cannot be
+/// called generically
+fn sig_params(sig: &str) -> Result<Vec<String>, String> {
+    let t: Vec<&str> = sig.split(' ').filter(|x| !x.is_empty()).collect();
+    let fi = t.iter().position(|x| *x == "fn").ok_or("no `fn` in the signature")?;
+    if t.get(fi + 2) != Some(&"(") {
+        return Err("generic function (type parameters)".into());
+    }
+    let mut depth = 0i32;
+    let mut params: Vec<Vec<&str>> = vec![vec![]];
+    let mut closed = false;
+    for x in &t[fi + 2..] {
+        match *x {
+            "(" | "[" | "<" => {
+                depth += 1;
+                if depth > 1 {
+                    params.last_mut().unwrap().push(x);
+                }
+            }
+            ")" | "]" | ">" => {
+                depth -= 1;
+                if depth == 0 {
+                    closed = true;
+                    break;
+                }
+                params.last_mut().unwrap().push(x);
+            }
+            "," if depth == 1 => params.push(vec![]),
+            _ => params.last_mut().unwrap().push(x),
+        }
+    }
+    if !closed {
+        return Err("unbalanced signature".into());
+    }
+    let mut out = vec![];
+    for p in params.into_iter().filter(|p| !p.is_empty()) {
+        let p: Vec<&str> = p.into_iter().filter(|x| *x != "mut" || true).collect();
+        let joined = p.join("");
+        if matches!(joined.as_str(), "&self" | "&mutself" | "self" | "mutself") {
+            out.push(joined);
+            continue;
+        }
+        let colon = p.iter().position(|x| *x == ":").ok_or_else(|| format!("parameter `{}` not understood", p.join(" ")))?;
+        out.push(p[colon + 1..].iter().filter(|x| !x.starts_with('\'')).cloned().collect::<Vec<_>>().join(""));
+    }
+    Ok(out)
+}
+/// (declaration of the value list, expression passing one element `x<i>`) for a parameter type
+fn probe_values(ty: &str, i: usize) -> Option<(String, String)> {
+    let ints = |t: &str, max: bool| {
+        let mut v = vec!["0", "1", "127"];
+        if t != "u8" || true {
+            v.push("128");
+            v.push("255");
+        }
+        let mut s = v.join(", ");
+        if max && t != "u8" {
+            s.push_str(&format!(", {}::MAX", t));
+        }
+        (format!("let a{}: &[{}] = &[{}];", i, t, s), format!("*x{}", i))
+    };
+    Some(match ty {
+        "&str" => (format!("let a{}: &[&str] = &[\"\", \"a\", \"%\", \"\\u{{e9}}\", &big];", i), format!("*x{}", i)),
+        "String" => (format!("let a{}: &[&str] = &[\"\", \"a\", \"%\", \"\\u{{e9}}\", &big];", i), format!("x{}.to_string()", i)),
+        "&[u8]" => (format!("let a{}: &[&[u8]] = &[&[], &[0xFF], b\"a\", big.as_bytes()];", i), format!("*x{}", i)),
+        "u8" | "u16" | "u32" | "usize" => ints(ty, true),
+        "bool" => (format!("let a{}: &[bool] = &[false, true];", i), format!("*x{}", i)),
+        "char" => (format!("let a{}: &[char] = &['a', '\\u{{e9}}', '\\0', char::MAX];", i), format!("*x{}", i)),
+        _ => return None,
+    })
+}
+fn crate_package(dir: &str) -> &'static str {
+    match dir {
+        "url" => "url",
+        "idna" => "idna",
+        "percent_encoding" => "percent-encoding",
+        "form_urlencoded" => "form_urlencoded",
+        _ => "data-url",
+    }
+}
+fn probe_source(e: &ApiEntry, path: &str, params: &[String]) -> Option<String> {
+    let method = params.first().map_or(false, |p| p.contains("self"));
+    let mut decls = String::new();
+    let mut loops_open = String::new();
+    let mut loops_close = String::new();
+    let mut args = vec![];
+    let mut shows = vec![];
+    for (i, ty) in params.iter().enumerate().skip(if method { 1 } else { 0 }) {
+        let (d, x) = probe_values(ty, i)?;
+        decls.push_str(&format!("    {}\n", d));
+        loops_open.push_str(&format!("    for x{} in a{}.iter() {{\n", i, i));
+        loops_close.push_str("    }\n");
+        args.push(x);
+        shows.push(format!("short(&format!(\"{{:?}}\", x{}))", i));
+    }
+    let call = if method {
+        let m = e.name.rsplit("::").next().unwrap_or(&e.name);
+        format!("{{ let mut u = url::Url::parse(\"http://example.com/a?b#c\").unwrap(); let _ = std::hint::black_box(u.{}({})); let _ = &mut u; }}", m, args.join(", "))
+    } else {
+        format!("{{ let _ = std::hint::black_box({}({})); }}", path, args.join(", "))
+    };
+    let show = if shows.is_empty() { "String::new()".to_string() } else { format!("[{}].join(\", \")", shows.join(", ")) };
+    Some(format!(
+        r#"#![allow(unused_mut, unused_variables, deprecated)]
+use std::sync::Mutex;
+static LAST: Mutex<String> = Mutex::new(String::new());
+fn short(s: &str) -> String {{ if s.len() > 40 {{ format!("{{}}... ({{}} bytes)", s.chars().take(24).collect::<String>(), s.len()) }} else {{ s.to_string() }} }}
+fn main() {{
+    std::panic::set_hook(Box::new(|i| {{ *LAST.lock().unwrap() = i.to_string().replace('\n', " "); }}));
+    let big = "a/../".repeat(13108);
+    let mut calls = 0usize;
+{decls}{open}        calls += 1;
+        if calls <= 200 {{
+            let r = std::panic::catch_unwind(std::panic::AssertUnwindSafe(|| {call}));
+            if r.is_err() {{
+                println!("PANIC\t{{}}\t{{}}", {show}, LAST.lock().unwrap());
+            }}
+        }}
+{close}    println!("CALLS\t{{}}", calls.min(200));
+}}
+"#,
+        decls = decls,
+        open = loops_open,
+        close = loops_close,
+        call = call,
+        show = show
+    ))
+}
+fn generic_probe(e: &ApiEntry, rep: &mut Report) {
+    let full = format!("{}::{}", e.krate, e.name);
+    let cannot = |rep: &mut Report, why: String| rep.notes.push(format!("unlisted public fn {}: cannot be exercised generically ({})", full, why));
+    let params = match sig_params(&e.sig) {
+        Ok(p) => p,
+        Err(w) => return cannot(rep, w),
+    };
+    let method = params.first().map_or(false, |p| p.contains("self"));
+    if method && !(e.krate == "url" && e.name.starts_with("Url::")) {
+        return cannot(rep, format!("method of a type that cannot be constructed generically: {}", e.name));
+    }
+    if params.len() > 4 {
+        return cannot(rep, "more than 4 parameters".into());
+    }
+    let dir = e.file.split('/').next().unwrap_or("").to_string();
+    let module = e.file.rsplit('/').next().unwrap_or("").trim_end_matches(".rs").to_string();
+    let mut candidates = vec![format!("{}::{}", e.krate, e.name)];
+    if module != "lib" && module != "mod" && !e.name.starts_with(&format!("{}::", module)) {
+        candidates.push(format!("{}::{}::{}", e.krate, module, e.name));
+    }
+    if let Some(rest) = e.name.strip_prefix(&format!("{}::", module)) {
+        candidates.push(format!("{}::{}", e.krate, rest));
+    }
+    let repo = std::env::var("VERIF_REPO").unwrap_or_else(|_| "/repo".into());
+    let cwd = std::env::current_dir().map(|p| p.display().to_string()).unwrap_or_else(|_| ".".into());
+    let proj = format!("{}/build/tmp/c04_probe_{}", cwd, std::process::id());
+    let target = format!("{}/build/tmp/c04_probe_target", cwd);
+    if let Err(err) = std::fs::create_dir_all(format!("{}/src", proj)) {
+        return cannot(rep, format!("cannot create {}: {}", proj, err));
+    }
+    let features = if dir == "url" { ", features = [\"serde\", \"expose_internals\"]" } else { "" };
+    let mut deps = format!("{} = {{ path = \"{}/{}\"{} }}\n", crate_package(&dir), repo, dir, features);
+    if method && dir != "url" {
+        deps.push_str(&format!("url = {{ path = \"{}/url\" }}\n", repo));
+    }
+    let manifest = format!(
+        "[package]\nname = \"c04-probe\"\nversion = \"0.1.0\"\nedition = \"2021\"\n\n[workspace]\n\n[dependencies]\n{}\n[profile.dev]\nopt-level = 0\ndebug-assertions = true\noverflow-checks = true\n",
+        deps
+    );
+    let _ = std::fs::write(format!("{}/Cargo.toml", proj), manifest);
+    let _ = std::fs::copy(format!("{}/build/harness/Cargo.lock", cwd), format!("{}/Cargo.lock", proj));
+    let mut built = false;
+    let mut last_err = String::new();
+    for path in &candidates {
+        let src = match probe_source(e, path, &params) {
+            Some(s) => s,
+            None => {
+                let _ = std::fs::remove_dir_all(&proj);
+                return cannot(rep, format!("a parameter type outside {{&str, &[u8], u8, u16, u32, usize, bool, char, String}}: {:?}", params));
+            }
+        };
+        let _ = std::fs::write(format!("{}/src/main.rs", proj), src);
+        let out = std::process::Command::new("cargo").args(["build", "--offline", "--quiet"]).current_dir(&proj).env("CARGO_TARGET_DIR", &target).output();
+        match out {
+            Ok(o) if o.status.success() => {
+                built = true;
+                break;
+            }
+            Ok(o) => last_err = clip(String::from_utf8_lossy(&o.stderr).lines().find(|l| l.starts_with("error")).unwrap_or("cargo build failed"), 160),
+            Err(err) => last_err = format!("cannot run cargo: {}", err),
+        }
+        if method {
+            break;
+        }
+    }
+    if !built {
+        let _ = std::fs::remove_dir_all(&proj);
+        return cannot(rep, format!("no call path compiles ({:?}): {}", candidates, last_err));
+    }
+    let out = std::process::Command::new(format!("{}/debug/c04-probe", target)).output();
+    let _ = std::fs::remove_dir_all(&proj);
+    match out {
+        Err(err) => cannot(rep, format!("the probe does not start: {}", err)),
+        Ok(o) => {
+            let txt = String::from_utf8_lossy(&o.stdout).into_owned();
+            let mut calls = 0;
+            let mut panics = 0;
+            for l in txt.lines() {
+                let w: Vec<&str> = l.split('\t').collect();
+                if w[0] == "CALLS" {
+                    calls = w.get(1).and_then(|x| x.parse().ok()).unwrap_or(0);
+                } else if w[0] == "PANIC" {
+                    panics += 1;
+                    if rep.failures.len() < 20 {
+                        rep.failures.push((format!("generic {}({})", full, clip(w.get(1).unwrap_or(&""), 120)), format!("new public function panics: {}", clip(w.get(2).unwrap_or(&""), 200))));
+                    }
+                }
+            }
+            rep.evaluations += calls as u64;
+            if !o.status.success() && panics == 0 {
+                rep.failures.push((format!("generic {}", full), format!("new public function kills the probe process ({})", o.status)));
+            }
+            rep.notes.push(format!("unlisted public fn {}: generic probe made {} calls, {} panicked", full, calls, panics));
+        }
+    }
+}
+// ================================================================ doubling-time experiment (release build only)
+struct Exp {
+    row: &'static str,
+    fam: &'static str,
+    /// id of the listed timing finding this pair belongs to
+    listed: Option<&'static str>,
+    /// builds an input of about `size` bytes and returns the closure that makes the timed call(s)
+    make: Box<dyn Fn(usize) -> Box<dyn FnMut()>>,
+}
+fn rep_str(unit: &str, size: usize) -> String {
+    unit.repeat((size / unit.len().max(1)).max(1))
+}
+fn exp<F: Fn(usize) -> Box<dyn FnMut()> + 'static>(row: &'static str, fam: &'static str, listed: Option<&'static str>, make: F) -> Exp {
+    Exp { row, fam, listed, make: Box::new(make) }
+}
+/// experiment "call f on head ++ unit x n ++ tail"
+fn exp_str(row: &'static str, head: &'static str, unit: &'static str, tail: &'static str, listed: Option<&'static str>, f: fn(&str)) -> Exp {
+    let fam: &'static str = Box::leak(format!("'{}'+'{}'*n+'{}'", head, unit, tail).replace("''+", "").replace("+''", "").into_boxed_str());
+    exp(row, fam, listed, move |size| {
+        let s = format!("{}{}{}", head, rep_str(unit, size), tail);
+        Box::new(move || f(&s))
+    })
+}
+fn bb<T>(x: T) {
+    let _ = std::hint::black_box(x);
+}
+fn timing_experiments() -> Vec<Exp> {
+    let mut v: Vec<Exp> = vec![];
+    let parse: fn(&str) = |s| bb(Url::parse(s));
+    // Url::parse: dot-segment families behind http:, a non-special scheme and file:
+    for head in ["http://h/", "a:/", "file:///"] {
+        for unit in ["a/../", "/..", "%2e%2e/", "../", "a/", "%", "\\", "?", "#&=", "\u{e9}"] {
+            v.push(exp_str("url::Url::parse", head, unit, "", None, parse));
+        }
+        v.push(exp("url::Url::parse", Box::leak(format!("'{}'+'a/'*n+'../'*n", head).into_boxed_str()), None, move |size| {
+            let n = (size / 5).max(1);
+            let s = format!("{}{}{}", head, "a/".repeat(n), "../".repeat(n));
+            Box::new(move || bb(Url::parse(&s)))
+        }));
+    }
+    for unit in ["a.", "xn--4db.", "1.", "0x", "\u{e9}", "a", "%41", "["] {
+        v.push(exp_str("url::Url::parse", "http://", unit, "/", None, parse));
+    }
+    v.push(exp_str("url::Url::parse", "http://u", ":", "@h/", None, parse));
+    v.push(exp_str("url::Url::parse", "blob:", "blob", ":x", None, parse));
+    // F-C04-8: n dot-dot segments resolved at the root while the text before the path is long
+    let f8 = |pre: &'static str, mid: &'static str, up: &'static str| {
+        move |size: usize| -> Box<dyn FnMut()> {
+            let n = (size / (1 + up.len())).max(1);
+            let s = format!("{}{}{}{}", pre, "a".repeat(n), mid, up.repeat(n));
+            Box::new(move || bb(Url::parse(&s)))
+        }
+    };
+    v.push(exp("url::Url::parse", "'http://'+'a'*n+'/'+'../'*n", Some("F-C04-8"), f8("http://", "/", "../")));
+    v.push(exp("url::Url::parse", "'http://'+'a'*n+'/'+'%2e%2e/'*n", Some("F-C04-8"), f8("http://", "/", "%2e%2e/")));
+    v.push(exp("url::Url::parse", "'a'*n+':/'+'../'*n", Some("F-C04-8"), f8("", ":/", "../")));
+    v.push(exp("url::Url::parse", "'http://'+'u'*n+'@h/'+'../'*n", Some("F-C04-8"), f8("http://", "@h/", "../")));
+    v.push(exp("url::Url::join", "base 'http://'+'a'*n+'/' ref '../'*n", Some("F-C04-8"), |size| {
+        let n = (size / 4).max(1);
+        let b = Url::parse(&format!("http://{}/", "a".repeat(n))).unwrap();
+        let r = "../".repeat(n);
+        Box::new(move || bb(b.join(&r)))
+    }));
+    v.push(exp("url::Url::set_path", "url 'http://'+'a'*n+'/' arg '../'*n", Some("F-C04-8"), |size| {
+        let n = (size / 4).max(1);
+        let b = Url::parse(&format!("http://{}/", "a".repeat(n))).unwrap();
+        let r = "../".repeat(n);
+        Box::new(move || {
+            let mut u = b.clone();
+            u.set_path(&r);
+            bb(u)
+        })
+    }));
+    v.push(exp("url::quirks::set_pathname", "url 'http://'+'a'*n+'/' arg '../'*n", Some("F-C04-8"), |size| {
+        let n = (size / 4).max(1);
+        let b = Url::parse(&format!("http://{}/", "a".repeat(n))).unwrap();
+        let r = "../".repeat(n);
+        Box::new(move || {
+            let mut u = b.clone();
+            url::quirks::set_pathname(&mut u, &r);
+            bb(u)
+        })
+    }));
+    // join: long references against short and long bases
+    for (base, unit) in [("http://h/a/b", "a/../"), ("http://h/a/b", "../"), ("a:/a/b", "a/../"), ("file:///a/b", "a/../"), ("file:///a/b", "../"), ("http://h/a/b", "%2e%2e/")] {
+        let fam: &'static str = Box::leak(format!("base {} ref '{}'*n", base, unit).into_boxed_str());
+        v.push(exp("url::Url::join", fam, None, move |size| {
+            let b = Url::parse(base).unwrap();
+            let r = rep_str(unit, size);
+            Box::new(move || bb(b.join(&r)))
+        }));
+    }
+    for head in ["http://h/", "a:/", "file:///"] {
+        let fam: &'static str = Box::leak(format!("base '{}'+'a/'*n ref '../'*n", head).into_boxed_str());
+        v.push(exp("url::Url::join", fam, None, move |size| {
+            let n = (size / 5).max(1);
+            let b = Url::parse(&format!("{}{}", head, "a/".repeat(n))).unwrap();
+            let r = "../".repeat(n);
+            Box::new(move || bb(b.join(&r)))
+        }));
+    }
+    // make_relative on long paths
+    v.push(exp("url::Url::make_relative", "'http://h/'+'a/'*n vs 'http://h/'+'b/'*n", None, |size| {
+        let n = (size / 2).max(1);
+        let a = Url::parse(&format!("http://h/{}", "a/".repeat(n))).unwrap();
+        let b = Url::parse(&format!("http://h/{}", "b/".repeat(n))).unwrap();
+        Box::new(move || bb(a.make_relative(&b)))
+    }));
+    v.push(exp("url::Url::make_relative", "'http://h/'+'a/'*n vs the same +'x'", None, |size| {
+        let n = (size / 2).max(1);
+        let a = Url::parse(&format!("http://h/{}", "a/".repeat(n))).unwrap();
+        let b = Url::parse(&format!("http://h/{}x", "a/".repeat(n))).unwrap();
+        Box::new(move || bb(a.make_relative(&b)))
+    }));
+    // setters
+    for (start, unit) in [("http://h/", "a/../"), ("file:///", "a/../"), ("a:/x", "a/../"), ("http://h/", "%"), ("file:///", "/")] {
+        let fam: &'static str = Box::leak(format!("url {} arg '{}'*n", start, unit).into_boxed_str());
+        v.push(exp("url::Url::set_path", fam, None, move |size| {
+            let b = Url::parse(start).unwrap();
+            let r = rep_str(unit, size);
+            Box::new(move || {
+                let mut u = b.clone();
+                u.set_path(&r);
+                bb(u)
+            })
+        }));
+        v.push(exp("url::quirks::set_pathname", fam, None, move |size| {
+            let b = Url::parse(start).unwrap();
+            let r = rep_str(unit, size);
+            Box::new(move || {
+                let mut u = b.clone();
+                url::quirks::set_pathname(&mut u, &r);
+                bb(u)
+            })
+        }));
+    }
+    for (name, unit) in [("url::Url::set_query", "a=b&"), ("url::Url::set_fragment", "\u{e9}"), ("url::Url::set_username", "%"), ("url::Url::set_host", "a.")] {
+        let fam: &'static str = Box::leak(format!("url http://u:p@h:81/a/b?q#f arg '{}'*n", unit).into_boxed_str());
+        v.push(exp(name, fam, None, move |size| {
+            let b = Url::parse("http://u:p@h:81/a/b?q#f").unwrap();
+            let r = rep_str(unit, size);
+            Box::new(move || {
+                let mut u = b.clone();
+                match name {
+                    "url::Url::set_query" => u.set_query(Some(&r)),
+                    "url::Url::set_fragment" => u.set_fragment(Some(&r)),
+                    "url::Url::set_username" => bb(u.set_username(&r)),
+                    _ => bb(u.set_host(Some(&r))),
+                }
+                bb(u)
+            })
+        }));
+    }
+    // path_segments_mut: extend / push (F-C04-6 on file: URLs)
+    for (start, listed) in [("http://h/", None), ("a://h/", None), ("file:///", Some("F-C04-6"))] {
+        let fam: &'static str = Box::leak(format!("url {} one extend of n segments 'a'", start).into_boxed_str());
+        v.push(exp("url::PathSegmentsMut::extend", fam, listed, move |size| {
+            let n = (size / 2).max(1);
+            let b = Url::parse(start).unwrap();
+            let segs = vec!["a"; n];
+            Box::new(move || {
+                let mut u = b.clone();
+                u.path_segments_mut().unwrap().extend(segs.iter());
+                bb(u)
+            })
+        }));
+        let fam: &'static str = Box::leak(format!("url {} n calls of push('a')", start).into_boxed_str());
+        v.push(exp("url::PathSegmentsMut::push", fam, listed, move |size| {
+            let n = (size / 2).max(1);
+            let b = Url::parse(start).unwrap();
+            Box::new(move || {
+                let mut u = b.clone();
+                {
+                    let mut p = u.path_segments_mut().unwrap();
+                    for _ in 0..n {
+                        p.push("a");
+                    }
+                }
+                bb(u)
+            })
+        }));
+    }
+    v.push(exp("url::Url::query_pairs_mut", "n calls of append_pair('a','b')", None, |size| {
+        let n = (size / 4).max(1);
+        let b = Url::parse("http://h/").unwrap();
+        Box::new(move || {
+            let mut u = b.clone();
+            {
+                let mut q = u.query_pairs_mut();
+                for _ in 0..n {
+                    q.append_pair("a", "b");
+                }
+            }
+            bb(u)
+        })
+    }));
+    v.push(exp("url::Url::query_pairs", "'http://h/?'+'a=b&'*n iterated", None, |size| {
+        let u = Url::parse(&format!("http://h/?{}", rep_str("a=b&", size))).unwrap();
+        Box::new(move || bb(u.query_pairs().count()))
+    }));
+    v.push(exp("url::Url::path_segments", "'http://h/'+'a/'*n iterated", None, |size| {
+        let u = Url::parse(&format!("http://h/{}", rep_str("a/", size))).unwrap();
+        Box::new(move || bb(u.path_segments().map(|p| p.count())))
+    }));
+    // form_urlencoded / percent_encoding
+    let form: fn(&str) = |s| bb(form_urlencoded::parse(s.as_bytes()).count());
+    for unit in ["&", "=", "a=b&", "%41", "+", "%"] {
+        v.push(exp_str("form_urlencoded::parse", "", unit, "", None, form));
+    }
+    v.push(exp_str("form_urlencoded::byte_serialize", "", " ", "", None, |s| bb(form_urlencoded::byte_serialize(s.as_bytes()).collect::<String>())));
+    v.push(exp_str("form_urlencoded::byte_serialize", "", "\u{e9}", "", None, |s| bb(form_urlencoded::byte_serialize(s.as_bytes()).collect::<String>())));
+    v.push(exp_str("form_urlencoded::Serializer::append_pair", "", "\u{e9} ", "", None, |s| bb(Serializer::new(String::new()).append_pair(s, s).finish())));
+    for unit in ["%41", "%", "a", "%FF"] {
+        v.push(exp_str("percent_encoding::percent_decode", "", unit, "", None, |s| bb(percent_decode(s.as_bytes()).collect::<Vec<u8>>())));
+    }
+    v.push(exp_str("percent_encoding::PercentDecode::decode_utf8_lossy", "", "%FF", "", None, |s| bb(percent_decode(s.as_bytes()).decode_utf8_lossy().len())));
+    v.push(exp_str("percent_encoding::PercentDecode::decode_utf8_lossy", "", "%C3", "", None, |s| bb(percent_decode(s.as_bytes()).decode_utf8_lossy().len())));
+    for unit in ["\u{e9}", " ", "a", "a "] {
+        v.push(exp_str("percent_encoding::utf8_percent_encode", "", unit, "", None, |s| bb(utf8_percent_encode(s, NON_ALPHANUMERIC).to_string())));
+    }
+    // data-url
+    for unit in ["A", " ", " A", "A=", "AAA="] {
+        v.push(exp_str("data_url::forgiving_base64::decode_to_vec", "", unit, "", None, |s| bb(forgiving_base64::decode_to_vec(s.as_bytes()).map(|v| v.len()))));
+    }
+    let data: fn(&str) = |s| bb(DataUrl::process(s).map(|d| d.decode_to_vec().map(|(b, _)| b.len())));
+    for (head, unit, tail) in [("data:", ",", ""), ("data:;base64,", "A", ""), ("data:", "%", ","), ("data:,", "%", ""), ("data:,%4", "#", ""), ("data:,", "%41", ""), ("data:", ";", ","), ("data:a/b", ";a=1", ","), ("data:;base64,", " A", "")] {
+        v.push(exp_str("data_url::DataUrl::process+decode_to_vec", head, unit, tail, None, data));
+    }
+    let mime: fn(&str) = |s| bb(s.parse::<Mime>().map(|m| m.parameters.len()));
+    for (head, unit) in [("a/b", ";"), ("a/b", ";a=1"), ("a/b", ";a=\""), ("a/b;x=\"", "\\"), ("", "a/b;"), ("a/b", "; "), ("a/b;a=", "\u{e9}")] {
+        v.push(exp_str("data_url::Mime::from_str", head, unit, "", None, mime));
+    }
+    // F-C04-9: distinct parameter names
+    v.push(exp("data_url::Mime::from_str", "'a/b'+';p<i>=1' for i<n (distinct names)", Some("F-C04-9"), |size| {
+        let s = mime_distinct((size / 8).max(1));
+        Box::new(move || bb(s.parse::<Mime>().map(|m| m.parameters.len())))
+    }));
+    v.push(exp("data_url::DataUrl::process+decode_to_vec", "'data:a/b'+';p<i>=1' for i<n+','", Some("F-C04-9"), |size| {
+        let s = format!("data:{},", mime_distinct((size / 8).max(1)));
+        Box::new(move || bb(DataUrl::process(&s).map(|d| d.mime_type().parameters.len())))
+    }));
+    // punycode: the public functions are quadratic and uncapped (F-C04-10)
+    v.push(exp("idna::punycode::encode_str", "n distinct CJK characters", Some("F-C04-10"), |size| {
+        let s: String = (0..(size / 3).max(1)).map(|i| char::from_u32(0x4E00 + (i % 20000) as u32).unwrap()).collect();
+        Box::new(move || bb(idna::punycode::encode_str(&s)))
+    }));
+    v.push(exp_str("idna::punycode::encode_str", "", "\u{e9}", "", Some("F-C04-10"), |s| bb(idna::punycode::encode_str(s))));
+    v.push(exp_str("idna::punycode::encode_str", "", "a", "\u{e9}", Some("F-C04-10"), |s| bb(idna::punycode::encode_str(s))));
+    v.push(exp_str("idna::punycode::decode_to_string", "a-", "a", "", Some("F-C04-10"), |s| bb(idna::punycode::decode_to_string(s))));
+    v.push(exp_str("idna::punycode::decode_to_string", "", "a", "-a", Some("F-C04-10"), |s| bb(idna::punycode::decode_to_string(s))));
+    v.push(exp_str("idna::punycode::decode", "", "a", "", Some("F-C04-10"), |s| bb(idna::punycode::decode(s))));
+    // idna
+    let toa: fn(&str) = |s| bb(idna::domain_to_ascii(s));
+    let tou: fn(&str) = |s| bb(idna::domain_to_unicode(s).0.len());
+    for unit in ["a.", "xn--a.", "xn--4db.", "xn--bcher-kva.", "\u{e9}", "\u{e9}.", "A", ".", "xn--", "\u{5d0}", "a-", "\u{df}"] {
+        v.push(exp_str("idna::domain_to_ascii", "", unit, "", None, toa));
+        v.push(exp_str("idna::domain_to_unicode", "", unit, "", None, tou));
+    }
+    v.push(exp_str("url::Host::parse", "", "a.", "", None, |s| bb(Host::parse(s))));
+    v.push(exp_str("url::Host::parse", "", "1.", "", None, |s| bb(Host::parse(s))));
+    v.push(exp_str("url::Host::parse", "", "0x", "", None, |s| bb(Host::parse(s))));
+    v.push(exp_str("url::Host::parse", "[", ":", "]", None, |s| bb(Host::parse(s))));
+    v.push(exp_str("url::Host::parse_opaque", "", "%", "", None, |s| bb(Host::parse_opaque(s))));
+    v
+}
+fn time_ms(f: &mut dyn FnMut()) -> f64 {
+    let t = Instant::now();
+    f();
+    t.elapsed().as_secs_f64() * 1000.0
+}
+/// (note line, flagged).  Start size: grown geometrically from 4 KiB until one call takes >= 20 ms; then
+/// s, 2s, 4s, 8s, each the minimum of 5 runs; flagged iff three consecutive doublings each cost > 3.2x.
+fn doubling(e: &Exp) -> (String, bool) {
+    let id = format!("timing {} fam={}", e.row, e.fam);
+    let mut s = 4096usize;
+    loop {
+        let mut call = (e.make)(s);
+        let t = time_ms(&mut *call);
+        if t > 10_000.0 {
+            return (format!("{}: gave up (a single call of {} bytes took {:.0} ms)", id, s, t), false);
+        }
+        if t >= 20.0 {
+            break;
+        }
+        if s >= 64 << 20 {
+            return (format!("{}: gave up (more than 64 MiB needed for 20 ms; {} bytes take {:.2} ms)", id, s, t), false);
+        }
+        let grow = if t < 1.0 { 8 } else if t < 8.0 { 2 } else { 2 };
+        s *= grow;
+    }
+    let mut ts: Vec<f64> = vec![];
+    for k in 0..4 {
+        let mut call = (e.make)(s << k);
+        let mut best = f64::MAX;
+        for _ in 0..5 {
+            let t = time_ms(&mut *call);
+            best = best.min(t);
+            if t > 10_000.0 {
+                break;
+            }
+        }
+        ts.push(best);
+        if best > 10_000.0 {
+            break;
+        }
+    }
+    let ratios: Vec<f64> = ts.windows(2).map(|w| w[1] / w[0]).collect();
+    let flagged = ratios.len() == 3 && ratios.iter().all(|r| *r > 3.2);
+    let line = format!(
+        "{}: s={} t=[{}] ratios=[{}] {}{}",
+        id,
+        s,
+        ts.iter().map(|t| format!("{:.1}", t)).collect::<Vec<_>>().join(", "),
+        ratios.iter().map(|r| format!("{:.2}", r)).collect::<Vec<_>>().join(", "),
+        if flagged { "FLAG" } else { "ok" },
+        match e.listed {
+            Some(l) => format!(" (listed: {})", l),
+            None => String::new(),
+        }
+    );
+    (line, flagged)
+}
+/// `fail`: a flagged pair that is not a listed timing finding becomes a failure (search mode)
+fn run_timing_into(rep: &mut Report, fail: bool) {
+    if DBG {
+        rep.notes.push("timing: this is a dev-profile build; the doubling-time experiment is meaningful only for the release build".into());
+    }
+    let only = std::env::var("C04_TIMING_ONLY").ok();
+    let trace = std::env::var("C04_TRACE").is_ok();
+    for e in timing_experiments() {
+        if let Some(o) = &only {
+            if !format!("{} {}", e.row, e.fam).contains(o.as_str()) {
+                continue;
+            }
+        }
+        let (line, flagged) = doubling(&e);
+        if trace {
+            eprintln!("c04: {}", line);
+        }
+        rep.evaluations += 1;
+        if flagged {
+            *rep.histogram.entry(format!("timing-flagged:{}", e.listed.unwrap_or("unlisted"))).or_insert(0) += 1;
+            if fail && e.listed.is_none() {
+                rep.failures.push((format!("timing {} fam={}", e.row, e.fam), format!("super-linear: three consecutive doublings each cost more than 3.2x ({})", line)));
+            }
+        }
+        rep.notes.push(line);
+    }
+}
+
+/// development aid (`--mode selfcheck`, dev profile): the F-C04-7 class predicate against the observed
+/// debug assertion over a small exhaustive scope of file: bases and references
+fn run_selfcheck() -> Report {
+    let mut rep = Report::new();
+    let segs = ["a", "c:", "C:", "c|", "..", "", "%b", "z:"];
+    let mut bases: Vec<String> = vec![];
+    for host in ["", "h"] {
+        for a in segs {
+            bases.push(format!("file://{}/{}", host, a));
+            for b in segs {
+                bases.push(format!("file://{}/{}/{}", host, a, b));
+                for c in ["c:", "a", ""] {
+                    bases.push(format!("file://{}/{}/{}/{}", host, a, b, c));
+                    bases.push(format!("file://{}/{}/{}/{}?q#f", host, a, b, c));
+                }
+            }
+        }
+    }
+    bases.push("http://h/a/c:".into());
+    bases.push("a:/a/c:".into());
+    let firsts = ["..", ".", "%2e%2e", "%2E%2e", ".%2E", "%2e.", "x", "", "/..", "\\..", "?..", "#..", "c:", "\t..", " ..", "file:..", "FILE:%2E.", "file:/..", "file://h/..", "http:..", "..\\x", "...", "%2e", "..%2e"];
+    let rests = ["", "/x", "/../..", "?q", "#f", "\\y"];
+    for b in &bases {
+        let base = match Url::parse(b) {
+            Ok(u) => u,
+            Err(_) => continue,
+        };
+        for f in firsts {
+            for r in rests {
+                let reference = format!("{}{}", f.replace("\\t", "\t").replace("\\\\", "\\"), r.replace("\\\\", "\\"));
+                let predicted = c04_7_class(&base, &reference);
+                let _ = take_panic();
+                let observed = match catch_unwind(AssertUnwindSafe(|| base.join(&reference).is_ok())) {
+                    Ok(_) => "ok".to_string(),
+                    Err(_) => {
+                        let (m, l) = take_panic();
+                        if m.contains(K_C04_7.msg) && l.contains(K_C04_7.loc) { "F-C04-7".to_string() } else { format!("PANIC:{} @ {}", clip(&m, 80), l) }
+                    }
+                };
+                let model = if predicted && DBG { "F-C04-7" } else { "ok" };
+                rep.case("selfcheck-c04-7", &format!("base={} ref={}", esc(base.as_str().as_bytes()), esc(reference.as_bytes())), model, &observed, true, &format!("c047:{}", observed.split(':').next().unwrap_or("")));
+            }
+        }
+    }
+    rep
+}
 
 fn main() {
     install_hook();
@@ -2658,6 +3329,7 @@ fn main() {
         "search" => run_search(&args),
         "known" => run_known(&args),
         "replay" => run_replay(&args),
+        "selfcheck" => run_selfcheck(),
         "timing" => {
             let mut rep = Report::new();
             run_timing_into(&mut rep, false);
